@@ -232,6 +232,8 @@ def observations(mode="all"):
             L.append("subsA|4|%d" % pp)
         if mode != "multi":
             L.append("qA|5|%d|" % pp)
+            L.append("qA|3 4|%d|" % pp)          # a two-object adapter (another arity: its own table in the registry)
+            L.append("qA|5 3|%d|a" % pp)
     if mode != "single":
         L.append("subsA|5|N")
         L.append("subsA|4|N")
